@@ -5,7 +5,7 @@
     [named_array_ok gen_disp_size name disp_arrays = true], [mode_eqb gen_entity_parse_mode InOrder = true], ...)
     in the kernel on every run.  Only statements here; proofs are in Fmt/VmfTextProofs.v. *)
 From Coq Require Import NArith ZArith List String Bool.
-From SV Require Import KV.KvBase KV.KvLex KV.KvParse.
+From SV Require Import KV.KvBase KV.KvLex KV.KvParse KV.KvSym KV.KvRoundtrip.
 From SV Require Import Fmt.VmfText Fmt.VmfTextProofs Fmt.VmfBlocks Fmt.VmfBlocksProofs Fmt.VmfFields Fmt.VmfFieldsProofs.
 From SV Require Import Gen.VmfTemplates_gen Gen.VmfKeys_gen Gen.VmfDispSizes_gen Gen.VmfOrder_gen Gen.VmfProg_gen Gen.VmfFieldsCfg_gen.
 Import ListNotations.
@@ -106,27 +106,28 @@ Proof. exact fixup_index_100_refuted. Qed.
     they pass).  For every program table that passes the generated check [table_ok], every method of the table, every
     environment (field values of any content, outcome of every condition, any number of loop iterations and callees,
     recursively) whose numeric fields are plain, and every call depth: the text the method writes is parsed by the
-    KeyValues1 model of C01 (tokenizer + Keyvalues.parse, rocq/KV) into exactly the tree the writer was given -- the
+    KeyValues1 model of C01 (tokenizer + Keyvalues.parse, rocq/KV; for every parser configuration P accepted by C01's
+    [pcfg_ok] -- the check discharges [pcfg_ok gen_parsecfg] for today's parser sites) into exactly the tree the writer was given -- the
     key and value of every line and the child blocks, in order.  [doc_names_ok]: no key contains LF/CR (format limit of
     Keyvalues.parse). *)
-Theorem c06_block_text_parses : forall nums tbl, table_ok nums tbl = true ->
+Theorem c06_block_text_parses : forall nums tbl (P : parsecfg), table_ok nums tbl = true -> pcfg_ok P = true ->
   forall fuel fn e text kvs flag_on, env_ok nums e ->
   run (fun_lookup tbl) fuel (fun_lookup tbl fn) [] e = Some (text, kvs) -> doc_names_ok kvs = true ->
-  parse_kv vmf_E flag_on text = POk kvs.
+  parse_kv P vmf_E flag_on text = POk kvs.
 Proof. exact table_text_parses. Qed.
 
 (** ... for any function table, not only an association list *)
 Theorem c06_program_text_parses : forall nums funs, (forall fn, prog_ok nums (funs fn) = true) ->
-  forall fuel p e text kvs flag_on, prog_ok nums p = true -> env_ok nums e ->
+  forall (P : parsecfg) fuel p e text kvs flag_on, pcfg_ok P = true -> prog_ok nums p = true -> env_ok nums e ->
   run funs fuel p [] e = Some (text, kvs) -> doc_names_ok kvs = true ->
-  parse_kv vmf_E flag_on text = POk kvs.
+  parse_kv P vmf_E flag_on text = POk kvs.
 Proof. exact program_text_parses. Qed.
 
 (** The class condition of [prog_ok] is necessary at this level too: a line with a raw string value does not parse
     back to the tree the writer was given. *)
 Theorem c06_raw_line_refuted :
   exists e, forall fuel text kvs, run (fun _ => PEnd) (S fuel) raw_prog [] e = Some (text, kvs) ->
-    parse_kv vmf_E (fun _ => false) text <> POk kvs.
+    parse_kv ref_pcfg vmf_E (fun _ => false) text <> POk kvs.
 Proof. exact raw_line_refuted. Qed.
 
 (** 7. Field-level glue between the tree and the objects (round 2).
